@@ -58,6 +58,13 @@ def field_types(F, view):
             gens = F.adts[ty['adt']]['generics']
             args = [bind.get(a['param'], a) if 'param' in a else a for a in ty.get('args', [])]
             rec(ty['adt'], path + '.', dict(zip(gens, args)), depth + 1)
+        elif 'array' in ty and str(ty.get('len_str', '')).strip().isdigit() and int(str(ty['len_str']).strip()) <= 4:
+            # a small fixed-size array of registers: the value graph presents it as the cells `f.0`, `f.1`, ..
+            x = ty['array']
+            if 'param' in x and x['param'] in bind:
+                x = bind[x['param']]
+            for i in range(int(str(ty['len_str']).strip())):
+                put('%s.%d' % (path, i), x, adt_path, bind, depth)
         elif 'tuple' in ty:
             # tuple-typed field: its components are places `f.0`, `f.1`, ..
             for i, x in enumerate(ty['tuple']):
@@ -425,6 +432,39 @@ def structural_cond(c, ctx):
         return bool(is_int_cmp(c, ctx))
     except Exception:
         return False
+
+
+def data_driven_int_cells(m, ftypes):
+    """Integer state cells whose next value depends on the data (a run-length counter, a count of values satisfying a
+    predicate, ...): a condition on such a cell is a data condition even though it compares integers. A pure sample / fill
+    counter's update mentions only integers, lengths and presence."""
+    out = set()
+    for cell, t in m.up_fields.items():
+        ty = ftypes.get(cell, {})
+        if not is_int_ty(ty) and ty.get('prim') != 'bool':
+            continue
+        for x in subterms(t):
+            if x[0] in ('child', 'arg') or (x[0] == 'lit' and len(x) > 2 and x[2] == 'f') or \
+                    (x[0] == 'in' and x[1] != cell and not is_int_ty(ftypes.get(x[1], {})) and ftypes.get(x[1], {}).get('prim') != 'bool'
+                     and not is_seq_tyj(ftypes.get(x[1], {}))) or \
+                    (x[0] in ('front', 'back', 'get') ):
+                out.add(cell)
+                break
+    # closure: a cell driven by a data-driven cell is data-driven
+    changed = True
+    while changed:
+        changed = False
+        for cell, t in m.up_fields.items():
+            if cell in out or not (is_int_ty(ftypes.get(cell, {})) or ftypes.get(cell, {}).get('prim') == 'bool'):
+                continue
+            if any(x[0] == 'in' and x[1] in out for x in subterms(t)):
+                out.add(cell)
+                changed = True
+    return out
+
+
+def mentions_cells(c, cells):
+    return any(x[0] == 'in' and x[1] in cells for x in subterms(c)) if isinstance(c, tuple) else False
 
 
 def predicate_counter(B, ev):
